@@ -20,11 +20,8 @@ theorem addC_getD (a : Array Int) (i j : Nat) (v : Int) :
     by_cases hs : j < a.size
     · simp [Array.getD, hs]
     · simp [Array.getD, hs]
-  · simp only [Array.getD, Array.size_setIfInBounds, hj, false_and, if_false, Int.add_zero]
-    split
-    · rw [Array.getElem_setIfInBounds]
-      simp [Ne.symm hj]
-    · rfl
+  · have hij : ¬ i = j := fun h => hj h.symm
+    simp [Array.getD_eq_getD_getElem?, hj, hij]
 
 /-- closing the boxes `bs` of the point `d` at height `h` -/
 def closeOne (h : Int) (d : Nat) (bs : List Box) (c : Array Int) : Array Int :=
@@ -89,5 +86,25 @@ theorem domFold_contrib (pts : Array P3) (boxes : Array (List Box)) (point : P3)
     intro c0
     simp only [List.foldl_cons, closeMany]
     exact ih _ _ _
+
+/-!
+### status after this file (see also the list at the end of `Contrib3DC.lean`)
+
+Available now for the loop invariant of `step3c`:
+* cells: `cutBoxesOnTheLeft_mem_chain`, `cutBoxesOnTheRight_mem`, `newBoxes_mem`;
+* chain: `cutBoxesOnTheLeft_chain`, `cutBoxesOnTheRight_chain`, `newBoxes_chain`;
+* potential: `cutBoxesOnTheLeft_potential`, `cutBoxesOnTheRight_potential`, `potential_add`;
+* arrays: `addC_getD`, `closeMany_getD` (with `closeAll_eq`, `domFold_contrib`), `domFold_boxes`;
+* spec: `contribSpec_slices`, `below_eraseIdx_of_lt`; reduction `contribs3d_eq_spec_of_sweepOn`.
+
+Still to do:
+* a shape lemma rewriting `step3c` with `domStep` / `newBoxes` / `closeMany` (the fold of `step3c` is
+  definitionally `domIdx.reverse.foldl (domStep pts boxes2 point)`, only the `let`/`match` plumbing is missing);
+* (3) the front bookkeeping: `takeWhile`/`dropWhile` on a staircase with sentinels (needs `negInf < f1, f2`),
+  `StairD` for the dominated points, distinct indices, equal `f1` only for exact duplicates;
+* the identification of the cell predicates with the 2-D slice terms of `contribSpec_slices`
+  (area of a chain = number of its cells; the slice term = number of exclusively covered 2-D cells);
+* (5) the assembly into `SweepCorrectOn (fun q => negInf < q.f1 ∧ negInf < q.f2)`.
+-/
 
 end SharkVerif.HV
